@@ -135,7 +135,16 @@ pub fn gen_case(rng: &mut Rng, _thorough: bool, case: u64) -> J {
         Err(Error::NoIndividuals) => json!("noIndividuals"),
         Err(e) => json!({"other": e.to_string()}),
     };
-    json!({"mode": "run", "criteria": crits.iter().map(|c| c.0.clone()).collect::<Vec<_>>(), "nc": nc, "threaded": threaded, "barrier": barrier, "immediate": immediate, "tiny": scale != 1.0, "failAt": fail_at,
+    // `AlgoConfigBuilder::build` on a few option combinations (absent / 0 / positive)
+    let mut cfgs = Vec::new();
+    for (ssz, ncc) in [(None, None), (Some(0usize), Some(nc)), (Some(1 + (case % 4) as usize), Some(0usize)), (Some((case % 3) as usize), None), (None, Some((case % 2) as usize * nc))] {
+        let mut b = AlgoConfigBuilder::new();
+        if let Some(x) = ssz { b.individual_sample_size(x); }
+        if let Some(x) = ncc { b.num_concurrent(x); }
+        let r = match b.build() { Ok(c) => json!({"ok": [c.individual_sample_size, c.num_concurrent]}), Err(Error::ZeroSampleSize) => json!("zeroSampleSize"), Err(Error::ZeroNumConcurrent) => json!("zeroNumConcurrent"), Err(e) => json!({"other": e.to_string()}) };
+        cfgs.push(json!({"ss": ssz, "nc": ncc, "res": r}));
+    }
+    json!({"mode": "run", "configs": cfgs, "criteria": crits.iter().map(|c| c.0.clone()).collect::<Vec<_>>(), "nc": nc, "threaded": threaded, "barrier": barrier, "immediate": immediate, "tiny": scale != 1.0, "failAt": fail_at,
            "calls": calls.load(Ordering::SeqCst), "maxLive": max_live.load(Ordering::SeqCst), "ret": ret,
            "csvRows": rows.len(), "rowObjs": row_objs, "rowInputs": row_inputs, "bestFile": best_file, "bestLate": best_late, "stalledStarted": stalled_started})
 }
